@@ -305,6 +305,8 @@ pub struct LogDensity {
     pub hooks: Option<Arc<dyn EvalHooks>>,
     /// signals `on_drop` when the last clone of this instance is dropped
     pub drop_guard: Option<Arc<DropGuard>>,
+    /// the density is evaluated at x - x_shift (a model whose `math()` consumes randomness: the shift is drawn there)
+    pub x_shift: f64,
 }
 
 /// Callbacks from inside the density (they run on the chain's thread).
@@ -343,6 +345,7 @@ impl LogDensity {
             instance: 0,
             hooks: None,
             drop_guard: None,
+            x_shift: 0.0,
         }
     }
     pub fn with_hooks(mut self, instance: usize, hooks: Arc<dyn EvalHooks>) -> Self {
@@ -406,7 +409,12 @@ impl CpuLogpFunc for LogDensity {
             h.before_eval(self.instance, k);
         }
         let fault = self.faults.get(&k).copied();
-        let mut res = self.spec.eval(x, g);
+        let mut res = if self.x_shift != 0.0 {
+            let xs: Vec<f64> = x.iter().map(|v| v - self.x_shift).collect();
+            self.spec.eval(&xs, g)
+        } else {
+            self.spec.eval(x, g)
+        };
         if let Some(f) = fault {
             match f {
                 FaultKind::Recoverable => {
